@@ -354,7 +354,13 @@ func runCheck(root, repo string, spec *CheckSpec, tier string, seed int, only st
 			exit = 2
 			continue
 		}
-		outs, err := replayNative(root, repo, ur.unit, paths)
+		race := false
+		for _, res := range ur.results {
+			if res.Cfg.Race {
+				race = true
+			}
+		}
+		outs, err := replayNative(root, repo, ur.unit, paths, race)
 		if err != nil {
 			fmt.Printf("INCONCLUSIVE property=%s native replay could not be built: %v\n", spec.ID, err)
 			exit = 2
@@ -363,7 +369,11 @@ func runCheck(root, repo string, spec *CheckSpec, tier string, seed int, only st
 		reproducedLabel := map[string]bool{}
 		for i, v := range todo {
 			replayed++
-			if strings.Contains(outs[i], "VRF-REPRODUCED "+v.Label) {
+			raced := race && strings.Contains(outs[i], "WARNING: DATA RACE")
+			if raced {
+				fmt.Printf("  (native stress run under the race detector reported a data race)\n")
+			}
+			if raced || strings.Contains(outs[i], "VRF-REPRODUCED "+v.Label) {
 				if !reproducedLabel[v.Label] {
 					fmt.Printf("VIOLATION property=%s replay=%s\n", spec.ID, paths[i])
 					fmt.Printf("  label=%s entry=%s at %s\n  model: %s\n  notes: %s\n", v.Label, v.Entry, v.Where, fmtModel(v.Model), strings.Join(v.Notes, " "))
@@ -425,7 +435,7 @@ func tail(s string, n int) string {
 
 const qtlsUnsafe = "/root/go/pkg/mod/github.com/marten-seemann/qtls-go1-17@v0.1.0-beta.1.2/unsafe.go"
 
-func replayNative(root, repo string, u *UnitSpec, cexPaths []string) ([]string, error) {
+func replayNative(root, repo string, u *UnitSpec, cexPaths []string, race bool) ([]string, error) {
 	tmp, err := os.MkdirTemp("", "vrfreplay")
 	if err != nil {
 		return nil, err
@@ -460,7 +470,11 @@ func replayNative(root, repo string, u *UnitSpec, cexPaths []string) ([]string, 
 	os.WriteFile(ovPath, ovJSON, 0o644)
 	bin := filepath.Join(tmp, "replay.test")
 	env := append(os.Environ(), "GOFLAGS=-mod=mod", "GOPROXY=off", "GOSUMDB=off", "GOTOOLCHAIN=local")
-	build := osexec.Command("go", "test", "-vet=off", "-c", "-o", bin, "-overlay", ovPath, u.Package)
+	bargs := []string{"test", "-vet=off", "-c", "-o", bin, "-overlay", ovPath}
+	if race {
+		bargs = append(bargs, "-race")
+	}
+	build := osexec.Command("go", append(bargs, u.Package)...)
 	build.Dir = repo
 	build.Env = env
 	if out, err := build.CombinedOutput(); err != nil {
@@ -469,13 +483,17 @@ func replayNative(root, repo string, u *UnitSpec, cexPaths []string) ([]string, 
 	var outs []string
 	for _, p := range cexPaths {
 		var best string
-		for attempt := 0; attempt < 20; attempt++ {
+		maxAttempts := 20
+		if race {
+			maxAttempts = 2
+		}
+		for attempt := 0; attempt < maxAttempts; attempt++ {
 			c := osexec.Command(bin, "-test.run", "^TestVrfReplay$", "-test.count=1", "-test.timeout=120s")
 			c.Dir = filepath.Join(repo, u.Dir)
 			c.Env = append(env, "VRF_CEX="+p)
 			out, _ := c.CombinedOutput()
 			best = string(out)
-			if strings.Contains(best, "VRF-REPRODUCED") {
+			if strings.Contains(best, "VRF-REPRODUCED") || strings.Contains(best, "WARNING: DATA RACE") || strings.Contains(best, "test timed out") {
 				break
 			}
 			// retry only helps when map iteration order matters
@@ -489,6 +507,9 @@ func replayNative(root, repo string, u *UnitSpec, cexPaths []string) ([]string, 
 }
 
 func replayOnly(root, repo string, spec *CheckSpec, path string) int {
+	if abs, err := filepath.Abs(path); err == nil {
+		path = abs
+	}
 	b, err := os.ReadFile(path)
 	if err != nil {
 		fmt.Fprintln(os.Stderr, err)
@@ -502,7 +523,7 @@ func replayOnly(root, repo string, spec *CheckSpec, path string) int {
 	for _, u := range spec.Units {
 		for _, es := range u.Entries {
 			if es.Func == v.Entry {
-				outs, err := replayNative(root, repo, u, []string{path})
+				outs, err := replayNative(root, repo, u, []string{path}, es.Race)
 				if err != nil {
 					fmt.Fprintln(os.Stderr, err)
 					return 2
